@@ -220,6 +220,17 @@ def reduction_candidates(spec):
                 else:
                     c["conns"][j][k2] = v2
                 yield "conn %d: %s -> %s" % (conn["id"], k2, v2), c
+        if conn.get("proto") == "tls":
+            for k2, v2 in (("offered", [conn.get("suite")]), ("sid_len", 32), ("early_data_side", None), ("master_seed", None),
+                           ("resumes", None), ("ch_noext", False), ("psk", False), ("exporter", True), ("hs_secrets", True),
+                           ("ccs_s", True), ("ccs_c", True), ("nonce_seq", True)):
+                if k2 in conn and conn[k2] != v2 and not (k2 in ("master_seed", "resumes") and conn.get("resume")):
+                    c = copy.deepcopy(spec)
+                    if v2 is None:
+                        c["conns"][j].pop(k2, None)
+                    else:
+                        c["conns"][j][k2] = v2
+                    yield "conn %d: %s -> %s" % (conn["id"], k2, v2), c
         for k2 in ("srv_group", "cli_group", "enc_group", "cli_enc_group"):
             if conn.get(k2) and conn[k2] != [1] * len(conn[k2]):
                 c = copy.deepcopy(spec)
